@@ -103,9 +103,16 @@ fn replay_one<T: Tab + Send>(sc: &Value, problems: &mut Vec<String>) {
                 let wf = e["nb"].as_u64().unwrap() as usize == (if n <= 6 { 1 } else { 1usize << (n - 6) })
                     && e.get("valpanic").is_none()
                     && e["on"].as_array().unwrap().iter().all(|x| (x.as_u64().unwrap() as usize) < (1usize << n));
-                let meaning = if e.get("val").is_some() { e["val"].clone() } else { e["on"].clone() };
-                if e["n"] != exp["n"] || !wf || meaning != exp["on"] {
+                let meaning = if e.get("val").is_some() {
+                    e["val"].clone()
+                } else {
+                    json!(e["on"].as_array().unwrap().iter().filter(|x| (x.as_u64().unwrap() as usize) < (1usize << n)).collect::<Vec<_>>())
+                };
+                if e["n"] != exp["n"] || meaning != exp["on"] {
                     problems.push(format!("{}: slot {} = {} (specification: {})", T::TY, s, e, exp));
+                } else if !wf {
+                    // right function, malformed representation: C02's business only
+                    problems.push(format!("WF {}: slot {} malformed: {}", T::TY, s, e));
                 }
             }
         }
@@ -230,6 +237,19 @@ fn main() {
             }
             w.flush().unwrap();
             println!("{}", json!({"chunks": chunk + 1, "events": nev, "episodes": nep, "panics": npanic}));
+        }
+        "cmp" => {
+            // vdrive cmp <lut|lutn> <n> <on-set a as json> <on-set b as json>: the library's own a.cmp(b)
+            let n: usize = args[3].parse().unwrap();
+            let a: Vec<usize> = serde_json::from_str(&args[4]).unwrap();
+            let b: Vec<usize> = serde_json::from_str(&args[5]).unwrap();
+            fn go<T: Tab>(n: usize, a: &[usize], b: &[usize]) -> Value {
+                let x = T::c_from_blocks(n, &exec::pack(n, a));
+                let y = T::c_from_blocks(n, &exec::pack(n, b));
+                x.rel(&y, "cmp")
+            }
+            let r = if args[2] == "lut" { go::<Lut>(n, &a, &b) } else { with_static!(n, L, go::<L>(n, &a, &b)) };
+            println!("{}", r);
         }
         "replay" => {
             // vdrive replay <scripts.ndjson> <mismatches.ndjson> [--ops op1,op2,...]
